@@ -101,6 +101,10 @@ WORD = set("abcdefghijklmnopqrstuvwxyzABCDEFGHIJKLMNOPQRSTUVWXYZ0123456789_$")
 OPCH = set("+-*/%<>=!&|^?~.:")
 
 
+# a line break chosen by the concretiser (layout, not content): file() writes it as LF or, for some files, as CR LF
+LNL = "\ue0ff\ue0fe"
+
+
 def join_tokens(toks, rnd, style):
     """style 0: single spaces; 1: minimal; 2: random whitespace and comments"""
     if style == 0:
@@ -117,7 +121,7 @@ def join_tokens(toks, rnd, style):
             else:
                 r = rnd.random()
                 if need or r < 0.4:
-                    out.append(rnd.choice([" ", "  ", "\n", "\t"]) if prev[-1] not in "*/" or True else " ")
+                    out.append(rnd.choice([" ", "  ", LNL, "\t"]) if prev[-1] not in "*/" or True else " ")
                 elif r < 0.5 and prev[-1] not in "*/":
                     out.append("/* c */")
         out.append(t)
@@ -201,7 +205,7 @@ class Concretiser:
                 s = (body + g + "}") if Concretiser.garbage_no % 2 else (body.lstrip()[1:] + g)
             else:
                 s = s + g
-        pad = self.ch([" ", "", "  ", "\n"])
+        pad = self.ch([" ", "", "  ", LNL])
         if s.startswith("{") or s.endswith("}"):
             pad = pad or " "
         return "{{" + pad + s + pad + "}}"
@@ -272,7 +276,7 @@ class Concretiser:
         sep = " "
         s = "<" + parts[0]
         for p in parts[1:]:
-            s += self.ch([" ", " ", "\n", "  ", "\t"]) + p
+            s += self.ch([" ", " ", LNL, "  ", "\t"]) + p
         if selfclose:
             s += self.ch(["/>", " />"])
         else:
@@ -284,14 +288,14 @@ class Concretiser:
             return self.tag_open(tag, attrs, True)
         if children_text == "" and self.chance(0.4):
             # nothing but template white space between the tags: no child (the text node is dropped)
-            children_text = self.rnd.choice([" ", "\n", "\n  ", "\t", " \n"])
+            children_text = self.rnd.choice([" ", LNL, LNL + "  ", "\t", " " + LNL])
         return self.tag_open(tag, attrs, False) + children_text + "</" + tag + self.ch([">", ">", " >"])
 
     def childless(self, tag, attrs):
         """an element that takes no children (import, external wxs): self-closing, or paired with nothing or white space between"""
         if self.plain or self.rnd.random() < 0.5:
             return "<%s %s/>" % (tag, " ".join(attrs))
-        return "<%s %s>%s</%s>" % (tag, " ".join(attrs), self.rnd.choice(["", " ", "\n", "\n  ", "\t"]), tag)
+        return "<%s %s>%s</%s>" % (tag, " ".join(attrs), self.rnd.choice(["", " ", LNL, LNL + "  ", "\t"]), tag)
 
     # ---- nodes
     def nodes(self, ns):
@@ -300,7 +304,7 @@ class Concretiser:
         for i, n in enumerate(ns):
             is_text = n["t"] == "text"
             if not is_text and not prev_text and self.chance(0.3):
-                out.append(self.rnd.choice(["\n", " ", "\n  ", "\t"]))
+                out.append(self.rnd.choice([LNL, " ", LNL + "  ", "\t"]))
             out.append(self.node(n))
             prev_text = is_text
         return "".join(out)
@@ -327,7 +331,7 @@ class Concretiser:
                 # only BETWEEN branches: after the last one the filler would join a following text node
                 if not self.plain and self.rnd.random() < 0.3 and (i < len(n["brs"]) - 1 or n["hasElse"]):
                     # (several comments in a row keep their order wherever the parser puts them)
-                    out.append(self.rnd.choice(["\n", " ", "<!-- between -->", "<!-- one --><!-- two -->", "<!-- one -->\n<!-- two -->\n<!--3-->"]))
+                    out.append(self.rnd.choice([LNL, " ", "<!-- between -->", "<!-- one --><!-- two -->", "<!-- one -->" + LNL + "<!-- two -->" + LNL + "<!--3-->"]))
             if n["hasElse"]:
                 out.append(self.wrap_dir(["wx:else"], n["els"]))
             return "".join(out)
@@ -369,10 +373,10 @@ class Concretiser:
         if dx == "noend":
             return self.tag_open(n["tag"], attrs, False) + self.nodes(n["ch"])
         if dx == "cutend":
-            return self.tag_open(n["tag"], attrs, False) + self.nodes(n["ch"]) + "</" + n["tag"] + self.ch(["", " ", "\n"]) + self.CUT
+            return self.tag_open(n["tag"], attrs, False) + self.nodes(n["ch"]) + "</" + n["tag"] + self.ch(["", " ", LNL]) + self.CUT
         if dx == "cut":
             s = "<" + n["tag"] + "".join(" " + a for a in attrs)
-            return s + self.ch(["", " ", "\n"]) + self.CUT
+            return s + self.ch(["", " ", LNL]) + self.CUT
         fixed = {
             "dup-wx:if": '<v wx:if="{{a}}" wx:if="{{b}}"/>',
             "dup-wx:for": '<v wx:for="{{l}}" wx:for="{{l}}"/>',
@@ -439,6 +443,7 @@ class Concretiser:
         out = []
         for p in f.get("importSrcs", f.get("imports", [])):
             out.append(self.childless("import", ['src="%s"' % p]))
+        n_head = len(out)
         for w in f.get("wxs", []):
             if w.get("late"):
                 continue          # set through the group API after parsing (semrun.case_post_ops)
@@ -447,15 +452,23 @@ class Concretiser:
             else:
                 body = wxs_source(w["members"], fn_table)
                 out.append('<wxs module="%s">%s</wxs>' % (w["n"], body))
+        n_wxs = len(out)
         for d in f.get("defs", []):
-            out.append('<template name="%s">%s</template>' % (d["n"], self.nodes(d["ch"])))
+            if not d["ch"] and self.chance(0.5):
+                out.append('<template name="%s"%s/>' % (d["n"], self.ch(["", " "])))      # a definition without children
+            else:
+                out.append('<template name="%s">%s</template>' % (d["n"], self.nodes(d["ch"])))
+        if n_wxs > n_head and len(out) > n_wxs and self.chance(0.35):
+            # script modules belong to the file wherever their tags stand: here behind the template definitions
+            out = out[:n_head] + out[n_wxs:] + out[n_head:n_wxs]
         out.append(self.nodes(f["root"]))
-        sep = "\n" if self.chance(0.3) else ""
+        sep = LNL if self.chance(0.3) else ""
         # (a line break in front of content that starts with text would become part of that text)
         text = sep.join(out[:-1]) + (sep if (len(out) > 1 and out[-1].startswith("<")) else "") + out[-1]
         if self.CUT in text:
             text = text[:text.index(self.CUT)]       # the source ends inside the tag
-        return text
+        # line ends: LF, or CR LF throughout the file (a Windows checkout) - CR is template white space like LF
+        return text.replace(LNL, "\r\n" if self.chance(0.15) else "\n")
 
 
 def js_value(v, fn_table):
